@@ -173,20 +173,28 @@ def Rules_reset(R):
 
 
 def pedal_exhaustive(ctx, depth):
-    """every sequence of `depth` steps over key / sustain pedal / sostenuto / time on one melodic key, and on one percussion key;
-    sequences are separated by a controller-state reset (which ends every note)"""
+    """sequences over key / sustain pedal / sostenuto / time on one melodic key, one percussion key and the top key, separated by a
+    controller-state reset (which ends every note).  quick: note-on, then every sequence of 3 steps, then each releasing step;
+    thorough: every sequence of `depth` steps."""
     import itertools
     rng = ctx.rng
     img = synth_gen.test_bank(rng, blanks=0)[0].hex()
     hs = []
     for ch, key in ((0, 60), (9, 40), (0, 127)):
-        alpha = ["on %d %d 100" % (ch, key), "off %d %d" % (ch, key), "cc %d 64 127" % ch, "cc %d 64 0" % ch, "cc %d 66 127" % ch, "cc %d 66 0" % ch,
-                 "gen 2048", "panic"]
+        on, off = "on %d %d 100" % (ch, key), "off %d %d" % (ch, key)
+        p1, p0, s1, s0 = "cc %d 64 127" % ch, "cc %d 64 0" % ch, "cc %d 66 127" % ch, "cc %d 66 0" % ch
         h = ["new 65536 1", "bank " + img]
-        for seq in itertools.product(alpha, repeat=depth):
-            if not any(x.startswith("on ") for x in seq[:-1]):
-                continue
-            h += list(seq) + ["rs"]
+        if ctx.tier == "quick":
+            mid = [on, off, p1, p0, s1, s0, "gen 2048"] if ch == 0 and key == 60 else [off, p1, p0, s1, s0]
+            for seq in itertools.product(mid, repeat=3):
+                for last in (off, p0, s0):
+                    h += [on] + list(seq) + [last, "rs"]
+        else:
+            alpha = [on, off, p1, p0, s1, s0, "gen 2048", "panic"]
+            for seq in itertools.product(alpha, repeat=depth):
+                if not any(x.startswith("on ") for x in seq[:-1]):
+                    continue
+                h += list(seq) + ["rs"]
         hs.append(h)
     return hs
 
